@@ -16,6 +16,8 @@ pub enum Expr {
     Call(String, Vec<usize>),
     /// uninterpreted function applied to literals (variable, negated?)
     CallLit(String, Vec<(usize, bool)>),
+    /// uninterpreted function applied to arbitrary argument expressions (parameters, constants, terms)
+    CallE(String, Vec<Expr>),
 }
 
 #[derive(Clone, Copy, Debug, PartialEq, Eq, Hash, PartialOrd, Ord, serde::Serialize, serde::Deserialize)]
@@ -77,6 +79,10 @@ impl Expr {
                 let a: Vec<String> = args.iter().map(|(i, neg)| if *neg { format!("!{}", vars[*i]) } else { vars[*i].clone() }).collect();
                 format!("{}({})", name, a.join(", "))
             }
+            Expr::CallE(name, args) => {
+                let a: Vec<String> = args.iter().map(|e| e.render(vars)).collect();
+                format!("{}({})", name, a.join(", "))
+            }
         }
     }
     fn render_atom(&self, vars: &[String]) -> String {
@@ -99,6 +105,12 @@ impl Expr {
             }
             Expr::CallLit(n, a) => {
                 out.insert(n.clone(), a.len());
+            }
+            Expr::CallE(n, a) => {
+                out.insert(n.clone(), a.len());
+                for e in a {
+                    e.symbols(out);
+                }
             }
         }
     }
@@ -127,6 +139,11 @@ impl Expr {
                     if !out.contains(i) {
                         out.push(*i)
                     }
+                }
+            }
+            Expr::CallE(_, a) => {
+                for e in a {
+                    e.support(out);
                 }
             }
         }
@@ -161,6 +178,15 @@ impl Expr {
                 let mut idx = 0usize;
                 for (k, (v, neg)) in args.iter().enumerate() {
                     if (state >> v & 1 == 1) != *neg {
+                        idx |= 1 << k;
+                    }
+                }
+                interp.explicit[name][idx]
+            }
+            Expr::CallE(name, args) => {
+                let mut idx = 0usize;
+                for (k, e) in args.iter().enumerate() {
+                    if e.eval(state, interp) {
                         idx |= 1 << k;
                     }
                 }
